@@ -42,6 +42,18 @@ var c03Tails = []string{
 	"kh", "k", ".5", ".x", "[0]", "[0:", "(1)", "* 2", "*", "? 1", "?? ", "|| ", "&& ", "& ", "| ", "==", "= 1", "d", "d6", "a10", "c3", "min", "优势", "else {}", "{", "..", ":", ",", ",1", "'", "\\", "\xff", "!= 0", "< 3",
 }
 
+var c03CompoundTails []string
+
+// compound tails: a continuation token followed by something that breaks off (the abandoned alternative has
+// already pushed parse-time state: counters, jump entries, code segments)
+func init() {
+	for _, op := range []string{",", ", 0 ?", ", 1 ?", "+", "||", "&&", "?", "? 1 :", "==", "=", ";", "\n", ".k = ", "[0] = ", "? 1, 0 ?"} {
+		for _, br := range []string{"'abc", "[1,", "{'a':", "(1+", "`x{1", "func g(){", "&y = (", "if 1 {", "xf(", "1 ||"} {
+			c03CompoundTails = append(c03CompoundTails, op+" "+br)
+		}
+	}
+}
+
 func c03Enumerate(tier string, seed int64, emit func(string, any)) {
 	thorough := tier == "thorough"
 	on := drv.AllOn()
@@ -58,6 +70,11 @@ func c03Enumerate(tier string, seed int64, emit func(string, any)) {
 				for _, c := range cfgs {
 					emit("program+sep+tail", c03Case{Src: p + sep + t, Cfg: c})
 				}
+			}
+		}
+		for _, sep := range []string{"", " "} {
+			for _, t := range c03CompoundTails {
+				emit("program+compound tail", c03Case{Src: p + sep + t, Cfg: on})
 			}
 		}
 		if thorough {
